@@ -694,7 +694,9 @@ pub fn c03_threads(cfg: C03Cfg, bound: u32) -> ThHarness {
                 step: Box::new(|| {
                     simk::with(|k| {
                         if let Some(s) = k.reqs.iter().find(|r| !r.done && r.opcode != OP_WRITE).map(|r| r.serial) {
-                            k.complete(s, Out::Default);
+                            // (A zero-copy send completes twice: the result, then the notification.)
+                            let out = if k.req(s).awaiting_notif { Out::Notif } else { Out::Default };
+                            k.complete(s, out);
                         }
                     })
                 }),
@@ -762,7 +764,9 @@ pub fn c03_threads(cfg: C03Cfg, bound: u32) -> ThHarness {
                             let head = k.rings[0].cq_head();
                             k.written
                                 .iter()
-                                .filter(|w| Some(w.cqe.user_data) == my_ud && w.serial.is_some_and(|s| k.req(s).opcode != OP_WRITE))
+                                // (Only the completion that makes the operation ready counts: for a zero-copy
+                                // send that is the notification, not the result that carries F_MORE.)
+                                .filter(|w| Some(w.cqe.user_data) == my_ud && w.cqe.flags & CQE_F_MORE == 0 && w.serial.is_some_and(|s| k.req(s).opcode != OP_WRITE))
                                 .any(|w| head.wrapping_sub(w.pos).wrapping_sub(1) < (1 << 31))
                         });
                         if consumed && !complete_polls_after.is_empty() {
